@@ -145,7 +145,11 @@ def _evaluate(pyhf, case, obj_kind, idx, handle):
 def run_case(case, ctx):
     import pyhf
 
-    backends.reset()
+    # the history starts with a switch to the default backend: a switch is what the property is about, so an
+    # exception from inside pyhf here is a finding, not a harness error
+    ok0, _ = ctx.call("C11/initial_switch_to_numpy", backends.reset)
+    if not ok0:
+        return
     state = {"backend": "numpy", "precision": "64b", "optimizer": "scipy"}
     objs = []
     real_switches = 0
@@ -270,4 +274,8 @@ def run_case(case, ctx):
     finally:
         objs.clear()
         gc.collect()
-        backends.reset()
+        try:
+            backends.reset()
+        except Exception:  # noqa: BLE001 - a broken switch has been reported above; otherwise it is a harness error
+            if not ctx.failures:
+                raise
